@@ -108,6 +108,8 @@ func (fc *FnCtx) escapeInfo() *escInfo {
 								default:
 									sink = true
 								}
+							} else if call, isCall := u.(*ssa.Call); isCall && fc.e.callKeepsNone(call, v) {
+								// a module function that neither stores, returns nor passes on the address
 							} else {
 								sink = true
 							}
@@ -370,4 +372,116 @@ func (fc *FnCtx) isAllocConst(term string) bool {
 		}
 	}
 	return false
+}
+
+// callKeepsNone: the statically known callee retains none of the arguments that are v (see retains).
+func (e *Engine) callKeepsNone(call *ssa.Call, v ssa.Value) bool {
+	e.retainMu.Lock()
+	defer e.retainMu.Unlock()
+	return e.keepsNone(call, v)
+}
+
+func (e *Engine) keepsNone(call *ssa.Call, v ssa.Value) bool {
+	c := call.Common()
+	callee := c.StaticCallee()
+	if c.IsInvoke() || callee == nil || len(callee.Blocks) == 0 || len(callee.Params) != len(c.Args) {
+		return false
+	}
+	if callee.Pkg != e.dns && !(callee.Origin() != nil && callee.Origin().Pkg == e.dns) {
+		return false // only functions of the module are looked into
+	}
+	if _, isClosure := c.Value.(*ssa.MakeClosure); isClosure {
+		return false
+	}
+	for i, a := range c.Args {
+		if a == v && e.retains(callee, i) {
+			return false
+		}
+	}
+	return true
+}
+
+// retains: may function fn keep parameter i (or an address derived from it) beyond its own activation - by
+// storing it, returning it, capturing it or handing it to a callee that does?  Conservative: anything not
+// recognised, every cycle and every dynamic call counts as retaining.
+func (e *Engine) retains(fn *ssa.Function, i int) bool {
+	if e.retainMemo == nil {
+		e.retainMemo = map[*ssa.Parameter]bool{}
+	}
+	p := fn.Params[i]
+	if r, ok := e.retainMemo[p]; ok {
+		if e.retainBusy[p] {
+			e.retainCycles++
+		}
+		return r
+	}
+	if e.retainBusy == nil {
+		e.retainBusy = map[*ssa.Parameter]bool{}
+	}
+	if len(e.retainBusy) >= 5 {
+		e.retainCycles++ // too deep: retains, and (like a cycle) not an answer to cache
+		return true
+	}
+	// in progress: a cycle retains (the whole computation runs under retainMu); an answer that leaned on an
+	// in-progress entry is not cached, so every answer depends on the queried function alone, not on query order
+	e.retainMemo[p], e.retainBusy[p] = true, true
+	cycles0 := e.retainCycles
+	kept := false
+	seen := map[ssa.Value]bool{}
+	var walk func(v ssa.Value)
+	walk = func(v ssa.Value) {
+		if kept || seen[v] {
+			return
+		}
+		seen[v] = true
+		refs := v.Referrers()
+		if refs == nil {
+			return
+		}
+		for _, r := range *refs {
+			switch u := r.(type) {
+			case *ssa.FieldAddr:
+				walk(u)
+			case *ssa.IndexAddr:
+				if u.X == v {
+					walk(u)
+				}
+			case *ssa.Slice, *ssa.ChangeType, *ssa.Phi:
+				walk(u.(ssa.Value))
+			case *ssa.UnOp, *ssa.DebugRef, *ssa.Field, *ssa.Index, *ssa.Lookup, *ssa.BinOp, *ssa.If, *ssa.Range:
+			case *ssa.Store:
+				if u.Val == v {
+					kept = true
+				}
+			case *ssa.Call:
+				c := u.Common()
+				if bi, isB := c.Value.(*ssa.Builtin); isB {
+					switch bi.Name() {
+					case "len", "cap", "delete", "clear", "min", "max", "print", "println":
+					case "copy":
+						if elemHasPointers(v.Type()) {
+							kept = true
+						}
+					default:
+						kept = true
+					}
+				} else if !e.keepsNone(u, v) {
+					kept = true
+				}
+			default:
+				kept = true
+			}
+			if kept {
+				return
+			}
+		}
+	}
+	walk(p)
+	delete(e.retainBusy, p)
+	if e.retainCycles != cycles0 && len(e.retainBusy) > 0 {
+		delete(e.retainMemo, p)
+	} else {
+		e.retainMemo[p] = kept
+	}
+	return kept
 }
